@@ -135,6 +135,9 @@ type Options struct {
 	Setup func(c *restful.Container)
 	// Services is filled by Build: the WebService values in table order.
 	Services []*restful.WebService
+	// Handler is what the route functions do besides recording (nil = DefaultHandler); used by
+	// builders that add the services themselves.
+	Handler RouteHandler
 }
 
 // RouteHandler is what a generated route function does besides recording; nil = default.
@@ -145,6 +148,13 @@ func DefaultHandler(routeID string, req *restful.Request, resp *restful.Response
 	resp.Header().Set("X-Route", routeID)
 	resp.WriteHeader(200)
 	io.WriteString(resp, routeID)
+}
+
+// EntityHandler answers through the entity writer (content negotiation on the request's
+// Accept header) instead of raw bytes.
+func EntityHandler(routeID string, req *restful.Request, resp *restful.Response) {
+	resp.Header().Set("X-Route", routeID)
+	resp.WriteEntity(struct{ Route string }{routeID})
 }
 
 // NewService builds one WebService from its spec.
